@@ -99,7 +99,7 @@ fn krylov(t: &mut Toks, cx: &mut Ctx, c09: bool) -> String {
         match &r {
             Ok(Ok(it)) => {
                 if *it > 3 * n + 10 {
-                    let lm = if solver == "qmr" || solver == "bicg" { lanczos_min(&dense, &b.vec, &x0.vec, n + 2) } else { 1.0 };
+                    let lm = if solver == "qmr" || solver == "bicg" || solver == "bicgstab" { lanczos_min(&dense, &b.vec, &x0.vec, n + 2) } else { 1.0 };
                     let tag = if lm < 5e-2 { format!(" [two-sided Lanczos near-breakdown: min |<w,v>|/(|w||v|) = {:e}]", lm) } else if lm < 1.0 { format!(" [min |<w,v>|/(|w||v|) = {:e}]", lm) } else { String::new() };
                     cx.fail(format!("needed {} iterations for order {}{}", it, n, tag)); }
                 // compare with the direct dense solution
@@ -117,7 +117,7 @@ fn krylov(t: &mut Toks, cx: &mut Ctx, c09: bool) -> String {
                 } }
             }
             Ok(Err(_)) => {
-                let lm = if solver == "qmr" || solver == "bicg" { lanczos_min(&dense, &b.vec, &x0.vec, n + 2) } else { 1.0 };
+                let lm = if solver == "qmr" || solver == "bicg" || solver == "bicgstab" { lanczos_min(&dense, &b.vec, &x0.vec, n + 2) } else { 1.0 };
                 let tag = if lm < 5e-2 { format!(" [two-sided Lanczos near-breakdown: min |<w,v>|/(|w||v|) = {:e}]", lm) } else if lm < 1.0 { format!(" [min |<w,v>|/(|w||v|) = {:e}]", lm) } else { String::new() };
                 cx.fail(format!("no convergence within {} iterations on a well-posed system of order {}{}", max_iter, n, tag)) }
             Err(_) => {}
